@@ -4,6 +4,8 @@ import (
 	"encoding/json"
 	"fmt"
 	"os"
+	"os/exec"
+	"strings"
 
 	"verif/engine/explore"
 )
@@ -28,6 +30,7 @@ var Registry = map[string]func(Tier) int{
 	"C09": C09,
 	"C10": C10,
 	"C19": C19,
+	"C20": C20,
 }
 
 // Systems used by `pcheck replay` to re-execute graph replays by name.
@@ -51,9 +54,27 @@ func ReplayFile(path string) int {
 		fmt.Fprintln(os.Stderr, err)
 		return 2
 	}
+	if eng, _ := f.Replay["engine"].(string); eng == "E4" {
+		si := fmt.Sprint(f.Replay["scenario_index"])
+		cmd := exec.Command("/verif/bin/kscheck", "replay", si, fmt.Sprint(f.Replay["choices"]))
+		out, err := cmd.CombinedOutput()
+		fmt.Print(string(out))
+		if strings.Contains(string(out), "VIOLATION kind=") {
+			fmt.Printf("VIOLATION property=%s replay=%s\n", f.Property, path)
+			return 1
+		}
+		if err != nil {
+			return 2
+		}
+		return 0
+	}
 	sysID, _ := f.Replay["system"].(string)
 	mk, ok := graphSystems[sysID]
 	if !ok {
+		if c, ok := f.Replay["check"]; ok {
+			fmt.Printf("replay: this is an input-enumeration case of check %v (%v); it is re-evaluated by `./run.sh %s quick`\n", c, f.Replay, f.Property)
+			return 0
+		}
 		fmt.Fprintf(os.Stderr, "replay: no graph system %q (non-graph replays are re-run by their check)\n", sysID)
 		return 2
 	}
@@ -88,4 +109,21 @@ func ReplayFile(path string) int {
 func init() {
 	ShardFuncs["C09"] = c09Shard
 	ShardFuncs["C10"] = c10Shard
+	ShardFuncs["C20"] = c20Shard
+}
+
+func init() {
+	registerSystem("C01", func() *explore.System { return aolSystem(aolVariant{ID: "C01", OwnRec: true, Ctl: []string{"NB", "RS", "XI"}}) })
+	registerSystem("C02", func() *explore.System { return aolSystem(aolVariant{ID: "C02", Forged: true, OwnACL: true, Ctl: []string{"NB"}}) })
+	registerSystem("C13/init0", func() *explore.System { return aolSystem(aolVariant{ID: "C13/init0", OwnCount: true, Ctl: []string{"NB", "XI"}}) })
+	registerSystem("C13/init1", func() *explore.System { return aolSystem(aolVariant{ID: "C13/init1", OwnCount: true, Ctl: []string{"NB", "XI"}, Inject: c13Inject()}) })
+	registerSystem("C03", func() *explore.System { return didSystem(didVariant{ID: "C03", Ctl: []string{"NB", "RS", "XI"}}) })
+	registerSystem("C04", func() *explore.System { return didSystem(didVariant{ID: "C04", Replays: true, EmptyID: true, Small: true, Ctl: []string{"NB", "RS", "XI"}}) })
+	registerSystem("C05", func() *explore.System { return didSystem(didVariant{ID: "C05", EmptyID: true, Ctl: []string{"NB", "RS", "XI"}}) })
+	registerSystem("C11", func() *explore.System { return didSystem(didVariant{ID: "C11", Mismatch: true, EmptyID: true, StrictID: true, Small: true, Ctl: []string{"NB", "XI"}}) })
+	registerSystem("C06", func() *explore.System { return pnftSystem(pnftVariant{ID: "C06", Auth: true, StrictDelete: true, Ctl: []string{"NB", "XI"}}) })
+	registerSystem("C12", func() *explore.System { return pnftSystem(pnftVariant{ID: "C12", Wide: true, Queries: true, StrictDelete: true, Ctl: []string{"NB", "XI"}}) })
+	registerSystem("C07", c07System)
+	registerSystem("C08/empty", func() *explore.System { return c08System("empty") })
+	registerSystem("C08/populated", func() *explore.System { return c08System("populated") })
 }
